@@ -23,7 +23,12 @@ RULE = ('one random scene per case: 1-8 point sources in 1-4 clusters (members 1
         '0.7..1.4; class adds the hostile feature (interleaved group membership in the input order, edge/off-image '
         'sources, masks with garbage underneath, unmasked NaN/inf, error maps/NDData, local background column or '
         'estimator, xy_bounds binding or not, fixed parameters, finder-based init, supplied group_id / id, '
-        'fitter_maxiters too small, non-model perturbation, units, direct SourceGrouper calls). non-trivial = the '
+        'fitter_maxiters too small, non-model perturbation, units, direct SourceGrouper calls). User-suppliable columns take '
+        'non-canonical valid content: group_id with zero-based / gapped / negative / near-dtype-max labels in every numpy '
+        'integer dtype or a list (true clusters, merged clusters, one group for all, one group per source, interleaved '
+        'membership; in 15 % of the cases of every grouper class), id as permutation of 1..N in several dtypes or '
+        'arbitrary unique ids, every documented x/y/flux alias with garbage decoy columns of lower precedence, integer '
+        'x/y/flux columns, per-source local_bkg. non-trivial = the '
         'scene has >= 2 sources or a masked/trimmed fit window or a binding bound; distinct by digest of (image, '
         'init table, mask, error, options)')
 CLASSES = ['isolated', 'grouped', 'interleaved', 'edge', 'masked', 'nonfinite', 'error', 'localbkg', 'bounds',
@@ -106,7 +111,7 @@ def _options(case):
     rng, cls = case.rng, case.cls
     o = dict(kind=_pick(rng, ALL_FIXED + ['cgprf', 'cgprf']), sizes=None, order='shuffled', grouping='grouper',
              edge=None, mask=None, nonfinite=False, error=None, bkg=None, bounds=None, fixed=None, finder=False,
-             maxiters=None, perturbed=False, units=False, ids=None, nddata=False,
+             maxiters=None, perturbed=False, units=False, ids=None, nddata=False, int_columns=False,
              fit_shape=_pick(rng, [(5, 5), (7, 7), (9, 9), (7, 7), (5, 7), (9, 5)]))
     nsrc_sizes = lambda: [int(_pick(rng, [1, 1, 2, 2, 3])) for _ in range(int(rng.integers(1, 5)))]  # noqa: E731
     if cls == 'isolated':
@@ -161,11 +166,20 @@ def _options(case):
         o['fit_shape'] = _pick(rng, [(5, 5), (7, 7)])
     elif cls == 'supplied_group':
         o['sizes'] = nsrc_sizes()
-        o['grouping'] = _pick(rng, ['supplied', 'supplied', 'supplied_merge'])
+        o['grouping'] = _pick(rng, ['supplied', 'supplied', 'supplied', 'supplied_merge', 'supplied_one',
+                                    'supplied_own'])
+        if o['grouping'] == 'supplied_own':
+            o['sizes'] = [1] * int(rng.integers(1, 7))       # every source its own group: no blends allowed
         o['order'] = _pick(rng, ['shuffled', 'interleaved'])
+        if rng.random() < 0.25:
+            o['ids'] = _pick(rng, ['permutation', 'arbitrary'])
+        o['int_columns'] = bool(rng.random() < 0.15)
     elif cls == 'supplied_id':
         o['sizes'] = nsrc_sizes()
-        o['ids'] = 'permutation'
+        o['ids'] = _pick(rng, ['permutation', 'permutation', 'arbitrary'])
+        if rng.random() < 0.3:
+            o['grouping'] = _pick(rng, ['supplied', 'supplied_merge', 'supplied_one'])
+        o['order'] = _pick(rng, ['shuffled', 'interleaved'])
     elif cls == 'maxiters':
         # some clusters start exactly at the truth (converge at once), the others far: mixed convergence status with
         # interleaved group membership, so that a mis-ordered fit_info/flag-8 book-keeping becomes visible
@@ -209,7 +223,48 @@ def _options(case):
         o['grouping'] = 'grouper'
     if o['bkg'] is not None and max(o['sizes']) > 1:
         o['bkg'] = None
+    # user-suppliable book-keeping columns with non-canonical but valid content, in every class that allows it
+    if o['grouping'] == 'grouper' and not o['finder'] and rng.random() < 0.15:
+        o['grouping'] = 'supplied'                    # the true clusters, as a group_id column
+    if o['grouping'].startswith('supplied'):
+        o['label_dtype'] = _pick(rng, LABEL_DTYPES)
+        schemes = ['zero_based', 'zero_based', 'one_based', 'gaps', 'large']
+        if o['label_dtype'] == 'list' or np.dtype(o['label_dtype']).kind == 'i':
+            schemes.append('negative')
+        o['label_scheme'] = _pick(rng, schemes)
+    if cls in ('isolated', 'grouped', 'interleaved', 'masked', 'error', 'localbkg') and rng.random() < 0.12:
+        o['int_columns'] = True                       # integer x/y/flux columns (e.g. x_peak from find_peaks)
+    o['decoys'] = bool(rng.random() < 0.3)           # lower-precedence alias columns holding garbage
     return o
+
+
+LABEL_DTYPES = ['int64', 'int64', 'int32', 'int16', 'int8', 'uint8', 'uint16', 'uint32', 'uint64', 'list']
+X_ALIASES = ['x_init', 'xinit', 'x', 'x_0', 'x0', 'xcentroid', 'x_centroid', 'x_peak', 'xcen', 'x_cen', 'xpos',
+             'x_pos', 'x_fit', 'xfit']
+FLUX_ALIASES = ['flux_init', 'fluxinit', 'flux', 'flux_0', 'flux0', 'flux_fit', 'fluxfit', 'source_sum',
+                'segment_flux', 'kron_flux']
+
+
+def _gen_labels(rng, k, scheme, dtype):
+    """k distinct integer group labels (python ints) that fit into dtype."""
+    info = np.iinfo('int64' if dtype == 'list' else dtype)
+    if scheme == 'zero_based':          # e.g. the inverse of np.unique(..., return_inverse=True)
+        vals = rng.permutation(k)
+    elif scheme == 'one_based':
+        vals = rng.permutation(k) + 1
+    elif scheme == 'gaps':
+        vals = rng.choice(np.arange(0, min(int(info.max), 1000) + 1), k, replace=False)
+    elif scheme == 'large':
+        return [int(info.max) - int(j) for j in rng.choice(np.arange(0, 40), k, replace=False)]
+    else:                               # negative (signed only), always with at least one negative label and maybe 0
+        lo = max(int(info.min), -60)
+        vals = rng.choice(np.arange(lo, 61), k, replace=False)
+        if not (vals < 0).any():
+            vals[int(rng.integers(0, k))] = lo
+        vals = np.array(list(dict.fromkeys(vals.tolist())))
+        while len(vals) < k:
+            vals = np.array(list(dict.fromkeys(vals.tolist() + [int(rng.integers(lo, 61))])))
+    return [int(v) for v in vals]
 
 
 # ----------------------------------------------------------------------------------------
@@ -322,12 +377,27 @@ def _init_table(case, s, o):
         yi = np.asarray(s.truth['y']).copy()
     if o['fixed'] == 'flux':
         fi = np.asarray(s.truth['flux']).copy()
-    names = _pick(rng, [('x', 'y', 'flux'), ('x_init', 'y_init', 'flux_init'), ('x_0', 'y_0', 'flux_0'),
-                        ('xcentroid', 'ycentroid', 'flux'), ('x_fit', 'y_fit', 'flux_fit'), ('xpos', 'ypos', 'flux')])
+    if o.get('int_columns') and not o['fixed'] and not exact.any() and not o['units']:
+        # integer pixel positions / counts: still within a pixel of the truth (|dx|, |dy| <= 0.5)
+        xi = np.round(np.asarray(s.truth['x'])).astype(np.int64)
+        yi = np.round(np.asarray(s.truth['y'])).astype(np.int64)
+        fi = np.round(fi).astype(np.int64)
+    # every documented alias, x / y / flux chosen independently; optionally decoy columns with lower-precedence
+    # aliases holding garbage ('searched in the above order, stopping at the first match')
+    ia, ib, ic = (int(rng.integers(0, len(X_ALIASES))), int(rng.integers(0, len(X_ALIASES))),
+                  int(rng.integers(0, len(FLUX_ALIASES))))
+    names = (X_ALIASES[ia], 'y' + X_ALIASES[ib][1:], FLUX_ALIASES[ic])
     t = (QTable if (o['units'] or rng.random() < 0.3) else Table)()
-    t[names[0]] = xi
-    t[names[1]] = yi
-    t[names[2]] = fi
+    cols = [(names[0], xi), (names[1], yi), (names[2], fi)]
+    if o.get('decoys'):
+        if ia + 1 < len(X_ALIASES):
+            cols.append((X_ALIASES[int(rng.integers(ia + 1, len(X_ALIASES)))], np.full(n, -999.0)))
+        if ib + 1 < len(X_ALIASES):
+            cols.append(('y' + X_ALIASES[int(rng.integers(ib + 1, len(X_ALIASES)))][1:], np.zeros(n)))
+        if ic + 1 < len(FLUX_ALIASES):
+            cols.append((FLUX_ALIASES[int(rng.integers(ic + 1, len(FLUX_ALIASES)))], np.full(n, 1e-3)))
+    for j in rng.permutation(len(cols)):
+        t[cols[j][0]] = cols[j][1]
     extra = {}
     for name in s.info['free']:
         if name == 'theta':
@@ -490,19 +560,35 @@ def run_case(case):
     elif o['grouping'] == 'none':
         expect_gid = np.arange(1, n + 1)
     else:
-        # supplied labels: arbitrary integers, one per cluster; 'merge' puts two clusters into one group
-        labs = rng.permutation(np.arange(1, 4 * len(o['sizes']) + 2))[:len(o['sizes'])]
+        # supplied group_id column, documented to be used as is: arbitrary integer labels (zero-based, with gaps,
+        # negative, near the dtype maximum), any numpy integer dtype or a plain list; one label per cluster,
+        # 'merge' joins two clusters, 'one' puts everything into one group, 'own' gives every source its own group
+        member = np.asarray(s.cid).copy()
         if o['grouping'] == 'supplied_merge' and len(o['sizes']) > 1:
-            labs[1] = labs[0]
-        expect_gid = np.array([int(labs[c]) for c in s.cid])
-        init['group_id'] = expect_gid
+            member[member == 1] = 0
+        elif o['grouping'] == 'supplied_one':
+            member[:] = 0
+        elif o['grouping'] == 'supplied_own':
+            member = np.arange(n)
+        keys = list(dict.fromkeys(member.tolist()))
+        labs = dict(zip(keys, _gen_labels(rng, len(keys), o['label_scheme'], o['label_dtype'])))
+        supplied = [labs[int(c)] for c in member]
+        init['group_id'] = supplied if o['label_dtype'] == 'list' else np.array(supplied, dtype=o['label_dtype'])
+        expect_gid = O.first_appearance(member)
     fitgroup = np.asarray(expect_gid)
     gsize = O.group_sizes(fitgroup)
 
     # ---- ids -------------------------------------------------------------------------
     ids = np.arange(1, n + 1)
     if o['ids'] == 'permutation':
-        ids = rng.permutation(n) + 1
+        ids = (rng.permutation(n) + 1).astype(_pick(rng, ['int64', 'int32', 'uint8', 'uint64']))
+        init['id'] = ids
+    elif o['ids'] == 'arbitrary':
+        # unique ids that are not 1..N (zero-based, gaps). The id column is not documented as an input: either the
+        # table is accepted (then rows must stay associated with their id) or it is refused with ValueError
+        ids = rng.choice(np.arange(0, 500), n, replace=False)
+        if rng.random() < 0.3:
+            ids = np.arange(n)
         init['id'] = ids
 
     # ---- image, mask, error, background ----------------------------------------------
@@ -519,9 +605,11 @@ def run_case(case):
     if o['bkg']:
         b = float(rng.uniform(-20, 50))
         if o['bkg'] == 'column':
+            if o.get('int_columns'):
+                b = float(int(b))
             data = data + b
             bkg_true[:] = b
-            init['local_bkg'] = bkg_true
+            init['local_bkg'] = bkg_true.astype(np.int64) if o.get('int_columns') else bkg_true
         elif o['bkg'] == 'column_per_source':
             bkg_true = rng.uniform(-20, 50, n)
             ped = np.zeros(s.shape)
@@ -639,7 +727,8 @@ def run_case(case):
                        sep=None if sep is None else round(sep, 3), edge=o['edge'], mask=o['mask'],
                        nonfinite=o['nonfinite'], error=o['error'], bkg=o['bkg'], bounds=o['bounds'], fixed=o['fixed'],
                        finder=o['finder'], ids=o['ids'], maxiters=o['maxiters'], perturbed=o['perturbed'],
-                       units=o['units'], nddata=o['nddata'], cols=list(names), info={k: v for k, v in s.info.items()
+                       units=o['units'], nddata=o['nddata'], cols=list(init.colnames),
+                       labels=[o.get('label_scheme'), o.get('label_dtype')], int_columns=bool(o.get('int_columns')), info={k: v for k, v in s.info.items()
                                                                                     if k != 'grid'})
     case.digest = core.arr_digest(data, mask, error, xi, yi, fi, np.asarray(expect_gid), ids) + core.digest(
         case.params)
@@ -656,6 +745,16 @@ def run_case(case):
             p, tbl = _run_phot(o, s, model, grouper, call_data, None, None, call_init, bounds, kw)
         else:
             p, tbl = _run_phot(o, s, model, grouper, call_data, mask, call_err, call_init, bounds, kw)
+    except (ValueError, IndexError) as exc:
+        loc = core.exc_location(exc) or ''
+        if o['ids'] == 'arbitrary' and (('Inconsistent data column lengths' in str(exc) and loc.endswith(':__call__'))
+                                        or (isinstance(exc, IndexError) and loc.endswith(':_calc_fit_metrics'))):
+            # 'id' is not a documented input column; ids that are not 1..N are refused (the inner join of the init
+            # table with the fit table, whose ids are always 1..N, loses rows -> ValueError, or IndexError when no
+            # row is left): not demanded by the property, counted
+            case.note('arbitrary_ids_refused_' + type(exc).__name__)
+            case.skip('supplied_ids_not_1_to_N_refused')
+        raise
     except NonFiniteValueError as exc:
         case.check(False, 'nonfinite_pixels_are_automatically_masked',
                    {'cls': case.cls, 'nonfinite': bool(o['nonfinite']), 'mask_given': mask is not None,
@@ -719,9 +818,12 @@ def run_case(case):
     if len(tbl) != n:
         return
     out_id = _col(tbl, 'id')
-    if o['ids'] == 'permutation':
+    if o['ids'] in ('permutation', 'arbitrary'):
         # supplied ids: every output row must carry the initial values of the input row with the same id
-        case.check(sorted(out_id.tolist()) == sorted(ids.tolist()), 'supplied_ids_kept', mech, obs=out_id.tolist())
+        kept = case.check(sorted(out_id.tolist()) == sorted(ids.tolist()), 'supplied_ids_kept',
+                          dict(mech, ids=o['ids']), obs=out_id.tolist(), exp=ids.tolist())
+        if not kept:
+            return
         pos = {int(v): k for k, v in enumerate(ids)}
         rowmap = np.array([pos[int(v)] for v in out_id])
         order_kept = bool(np.array_equal(rowmap, np.arange(n)))
@@ -747,8 +849,11 @@ def run_case(case):
     gmech = dict(mech, grouping=o['grouping'])
     grp_ok = True
     if o['grouping'].startswith('supplied'):
-        grp_ok &= case.check(np.array_equal(gid, expect_gid[R]), 'supplied_group_id_honoured', gmech,
-                             obs=gid.tolist(), exp=expect_gid[R].tolist())
+        sup = [int(supplied[i]) for i in R]
+        gmech = dict(gmech, labels=o['label_scheme'])
+        grp_ok &= case.check(gid.dtype.kind in 'iu' and [int(v) for v in gid] == sup, 'supplied_group_id_honoured',
+                             gmech, obs=[int(v) for v in gid] if gid.dtype.kind in 'iu' else repr(gid), exp=sup,
+                             dtype=str(gid.dtype), supplied_dtype=o['label_dtype'])
     elif o['grouping'] == 'none':
         grp_ok &= case.check(np.array_equal(gid, out_id), 'ungrouped_group_id_equals_id', gmech, obs=gid.tolist())
     else:
